@@ -219,6 +219,15 @@ def rule_resample(ctx):
                                 if not okb:
                                     yield ob(R, f, "multipitch.resample_multipitch:bounds", False, "searchsorted(times, t, side='right') == len(times) also holds for t == times[-1]: a reference time equal to the last estimate time gets the empty frame instead of the last frame", node=m.node)
                                     return
+        # np.interp on the frame index: interp clamps to the end values unless `left=` / `right=` say otherwise, so each
+        # out-of-range side needs its own sentinel
+        for c in s.calls():
+            if c.callee == "np.interp" and len(c.args) >= 3 and "target_times" in tm.params_of(c.args[0]) and c.args[1].op == "param" and c.args[1].a[0] == "times":
+                kw_ = dict(c.kw)
+                missing = [k_ for k_ in ("left", "right") if k_ not in kw_]
+                yield ob(R, f, "multipitch.resample_multipitch:bounds", not missing, "np.interp sends both out-of-range sides to a sentinel" if not missing else "np.interp(..., %s) clamps target times %s the estimate's range to the %s estimate frame instead of the empty frame (no `%s=` sentinel)" % (", ".join("%s=.." % k_ for k_ in kw_), "before" if "left" in missing else "after", "first" if "left" in missing else "last", missing[0]), node=c.node)
+                if missing:
+                    return
         if sides and sides != {"below", "above"}:
             yield ob(R, f, "multipitch.resample_multipitch:bounds", False, "the nearest-frame lookup was re-implemented and only target times %s the estimate's range are sent to the empty frame: times on the other side receive the first/last estimate frame" % ("above" if "above" in sides else "below"), node=None)
             return
